@@ -344,6 +344,6 @@ def where(op, condition, input, other):
         return op(condition, input, other)
     float_data = op(condition, input.dequantize(), other)
     if input.axis is None:
-        # We requantize with the input scale
-        return quantize_activation(float_data, qtype=input.qtype, scale=input._scale)
+        # We requantize with the input scale (in the promoted dtype when the other operand has a wider one)
+        return quantize_activation(float_data, qtype=input.qtype, scale=input._scale.to(float_data.dtype))
     return float_data
